@@ -3,9 +3,15 @@ import PedVerif.Lemmas.CallLayer2
 namespace PedVerif.Call
 open PedVerif.Checker PedVerif.Gen.CallTables
 
-/-- a pedantic call that is not stopped by the two entry tests: argument checks, then invocation -/
-theorem runCall_pedantic (env : Env) (orc : Nat → Val → Raw) (f : Fn) (args : List Val) (kw : List (NameId × Val)) (body : BodyOut)
-    (hmode : f.mode = .pedantic) (hinit : (f.firstIsSelf && args.isEmpty) = false)
+theorem initFails_of_not {α} (f : Fn) (args : List α) (h : (f.firstIsSelf && args.isEmpty) = false) : f.initFails args = false := by
+  simp only [Fn.initFails, h, Bool.false_and]
+theorem initFails_imp {α} (f : Fn) (args : List α) (h : f.initFails args = true) : (f.firstIsSelf && args.isEmpty) = true := by
+  simp only [Fn.initFails, Bool.and_eq_true] at h; simp [h.1.1, h.1.2]
+
+/-- a pedantic call that is not stopped by the two entry tests: argument checks, then invocation (`hinit`: `__init__` does not fail - the
+    receiver is positional, or may be passed by keyword since the repair `receiverMayBeKeyword`) -/
+theorem runCall_pedantic' (env : Env) (orc : Nat → Val → Raw) (f : Fn) (args : List Val) (kw : List (NameId × Val)) (body : BodyOut)
+    (hmode : f.mode = .pedantic) (hinit : f.initFails args = false)
     (hkw : (f.shouldHaveKwargs && !(f.argsWithoutSelf args).isEmpty) = false) :
     runCall env orc f args kw body =
       (match checkArguments env orc f args kw with
@@ -14,13 +20,26 @@ theorem runCall_pedantic (env : Env) (orc : Nat → Val → Raw) (f : Fn) (args 
   unfold runCall
   simp only [hinit, hkw, Bool.false_eq_true, ↓reduceIte, hmode, cfg_argsBeforeBody]
   rfl
+theorem runCall_pedantic (env : Env) (orc : Nat → Val → Raw) (f : Fn) (args : List Val) (kw : List (NameId × Val)) (body : BodyOut)
+    (hmode : f.mode = .pedantic) (hinit : (f.firstIsSelf && args.isEmpty) = false)
+    (hkw : (f.shouldHaveKwargs && !(f.argsWithoutSelf args).isEmpty) = false) :
+    runCall env orc f args kw body =
+      (match checkArguments env orc f args kw with
+       | some c => ⟨c, false, [], []⟩
+       | none => invoke env orc f args kw body) :=
+  runCall_pedantic' env orc f args kw body hmode (initFails_of_not f args hinit) hkw
 
-theorem runCall_requireKwargs (env : Env) (orc : Nat → Val → Raw) (f : Fn) (args : List Val) (kw : List (NameId × Val)) (body : BodyOut)
-    (hmode : f.mode = .requireKwargs) (hinit : (f.firstIsSelf && args.isEmpty) = false)
+theorem runCall_requireKwargs' (env : Env) (orc : Nat → Val → Raw) (f : Fn) (args : List Val) (kw : List (NameId × Val)) (body : BodyOut)
+    (hmode : f.mode = .requireKwargs) (hinit : f.initFails args = false)
     (hkw : (f.shouldHaveKwargs && !(f.argsWithoutSelf args).isEmpty) = false) :
     runCall env orc f args kw body = invoke env orc f args kw body := by
   unfold runCall
   simp only [hinit, hkw, Bool.false_eq_true, ↓reduceIte, hmode]
+theorem runCall_requireKwargs (env : Env) (orc : Nat → Val → Raw) (f : Fn) (args : List Val) (kw : List (NameId × Val)) (body : BodyOut)
+    (hmode : f.mode = .requireKwargs) (hinit : (f.firstIsSelf && args.isEmpty) = false)
+    (hkw : (f.shouldHaveKwargs && !(f.argsWithoutSelf args).isEmpty) = false) :
+    runCall env orc f args kw body = invoke env orc f args kw body :=
+  runCall_requireKwargs' env orc f args kw body hmode (initFails_of_not f args hinit) hkw
 
 /-- the outcomes a failed check can have: exceptions of the checking machinery, never a return or a positional-call error -/
 def Caller.isCheckFailure : Caller → Bool
@@ -153,10 +172,10 @@ theorem invoke_ne_cwa (env : Env) (orc) (f : Fn) (args : List Val) (kw : List (N
 /-- PedanticCallWithArgsException is raised exactly by `assert_uses_kwargs` -/
 theorem callWithArgs_iff (env : Env) (orc) (f : Fn) (args : List Val) (kw : List (NameId × Val)) (body : BodyOut) :
     (runCall env orc f args kw body).caller = .pedCallWithArgs ↔
-      ((f.firstIsSelf && args.isEmpty) = false ∧ f.shouldHaveKwargs = true ∧ (f.argsWithoutSelf args).isEmpty = false) := by
-  by_cases hinit : (f.firstIsSelf && args.isEmpty) = true
+      (f.initFails args = false ∧ f.shouldHaveKwargs = true ∧ (f.argsWithoutSelf args).isEmpty = false) := by
+  by_cases hinit : f.initFails args = true
   · unfold runCall; simp [hinit]
-  · have hinit' : (f.firstIsSelf && args.isEmpty) = false := by simpa using hinit
+  · have hinit' : f.initFails args = false := by simpa using hinit
     by_cases hk : (f.shouldHaveKwargs && !(f.argsWithoutSelf args).isEmpty) = true
     · have : (runCall env orc f args kw body).caller = .pedCallWithArgs := by unfold runCall; simp [hinit', hk]
       simp only [Bool.and_eq_true, Bool.not_eq_true'] at hk
@@ -164,9 +183,9 @@ theorem callWithArgs_iff (env : Env) (orc) (f : Fn) (args : List Val) (kw : List
     · have hk' : (f.shouldHaveKwargs && !(f.argsWithoutSelf args).isEmpty) = false := by simpa using hk
       have hne : (runCall env orc f args kw body).caller ≠ .pedCallWithArgs := by
         cases hm : f.mode with
-        | requireKwargs => rw [runCall_requireKwargs _ _ _ _ _ _ hm hinit' hk']; exact invoke_ne_cwa _ _ _ _ _ _
+        | requireKwargs => rw [runCall_requireKwargs' _ _ _ _ _ _ hm hinit' hk']; exact invoke_ne_cwa _ _ _ _ _ _
         | pedantic =>
-          rw [runCall_pedantic _ _ _ _ _ _ hm hinit' hk']
+          rw [runCall_pedantic' _ _ _ _ _ _ hm hinit' hk']
           split
           · rename_i c hc; intro h; simp only at h; subst h; exact checkArguments_ne_cwa _ _ _ _ _ hc
           · exact invoke_ne_cwa _ _ _ _ _ _
